@@ -45,6 +45,9 @@ func aolRules(p *Prog, r *Report, clause string, want func(tag string) bool) *ao
 				n++
 				r.OK(kp("FAMILY", FuncName(a.Fn)), "accessor family agreement", p.FnPos(a.Fn),
 					fmt.Sprintf("%s %s under %s with key type %s", a.Op, f, a.Prefix, a.KeyType))
+				if a.Op != "Iterator" {
+					checkAccessorShape(p, r, kp("SHAPE", FuncName(a.Fn)), "unconditional single operation on the marshalled parameter / unmarshalled store value", a.SO, 1)
+				}
 			}
 			for _, need := range []string{"Set", "Get", "Has"} {
 				if ops[need] == 0 {
